@@ -19,8 +19,8 @@ def load_corpus():
     return progs, mods, index["shards"]
 
 
-def build_corpus(shards):
-    pk = [f"corpus{i}" for i in range(shards)]
+def build_corpus(shards, crates=None):
+    pk = sorted(crates) if crates is not None else [f"corpus{i}" for i in range(shards)]
     rc, out, d = vlib.cargo_build(pk)
     return rc, out, d
 
